@@ -204,6 +204,12 @@ def replicateList {α} (n : Int) (xs : List α) : List α :=
 
 def replicateStr (n : Int) (s : String) : String := String.ofList (replicateList n s.toList)
 
+/-- Sequence repetition is inside the model's domain up to 200 000 result items; beyond that the
+model answers `oom` (never compared with the implementation, which may raise MemoryError or spend
+gigabytes there). -/
+def repGuard (n : Int) (len : Nat) (mk : Unit → Val) : Except Err Val :=
+  if n.toNat * len > 200000 then .error .oom else .ok (mk ())
+
 def isUndef : Val → Bool
   | .undef _ => true
   | _ => false
@@ -247,14 +253,14 @@ def pyBin (op : BinOp) (a b : Val) : Except Err Val :=
     | some i, some j => .ok (.int (i * j))
     | _, _ =>
       match a, intOf b, intOf a, b with
-      | .str s, some n, _, _ => .ok (.str (replicateStr n s))
-      | .markup s, some n, _, _ => .ok (.markup (replicateStr n s))
-      | .list xs, some n, _, _ => .ok (.list (replicateList n xs))
-      | .tuple xs, some n, _, _ => .ok (.tuple (replicateList n xs))
-      | _, _, some n, .str s => .ok (.str (replicateStr n s))
-      | _, _, some n, .markup s => .ok (.markup (replicateStr n s))
-      | _, _, some n, .list xs => .ok (.list (replicateList n xs))
-      | _, _, some n, .tuple xs => .ok (.tuple (replicateList n xs))
+      | .str s, some n, _, _ => repGuard n s.length (fun _ => .str (replicateStr n s))
+      | .markup s, some n, _, _ => repGuard n s.length (fun _ => .markup (replicateStr n s))
+      | .list xs, some n, _, _ => repGuard n xs.length (fun _ => .list (replicateList n xs))
+      | .tuple xs, some n, _, _ => repGuard n xs.length (fun _ => .tuple (replicateList n xs))
+      | _, _, some n, .str s => repGuard n s.length (fun _ => .str (replicateStr n s))
+      | _, _, some n, .markup s => repGuard n s.length (fun _ => .markup (replicateStr n s))
+      | _, _, some n, .list xs => repGuard n xs.length (fun _ => .list (replicateList n xs))
+      | _, _, some n, .tuple xs => repGuard n xs.length (fun _ => .tuple (replicateList n xs))
       | .obj _, _, _, _ => .error .oom
       | _, _, _, .obj _ => .error .oom
       | _, _, _, _ => .error .typeError
@@ -677,6 +683,17 @@ def applyTest (name : String) (v : Val) (args : List Val) : Except Err Bool :=
       | .undef _ | .obj _ => .error .oom
       | _ => .ok false)
   | "escaped", [] => .ok (hasHtml v)
+  | "upper", [] =>
+    -- `str(value).isupper()`: at least one cased character and no lower-case one (ASCII only in the model)
+    (match v with
+     | .obj _ | .fn _ => .error .oom
+     | _ => let s := pyStr v
+            if asciiOnly s then .ok (s.toList.any Char.isAlpha && s.toList.all (fun c => !c.isLower)) else .error .oom)
+  | "lower", [] =>
+    (match v with
+     | .obj _ | .fn _ => .error .oom
+     | _ => let s := pyStr v
+            if asciiOnly s then .ok (s.toList.any Char.isAlpha && s.toList.all (fun c => !c.isUpper)) else .error .oom)
   | "eq", [w] | "==", [w] | "equalto", [w] => pyCmp .eq v w
   | "ne", [w] | "!=", [w] => pyCmp .ne v w
   | "lt", [w] | "<", [w] | "lessthan", [w] => pyCmp .lt v w
@@ -749,7 +766,7 @@ def callVal (ctx : Ctx) (f : Val) (args : List Val) : Except Err Val :=
 def lookupVar (ctx : Ctx) (n : String) : Val :=
   match ctx.vars.find? (·.1 == n) with
   | some p => p.2
-  | Option.none => .undef n
+  | Option.none => .undef ""      -- the hint (the name) only feeds error messages, which are not modelled
 
 /- **Reference evaluator**: the value (and hook events) of an expression.  `ae` is the autoescape setting
     in force at run time; in a non-volatile frame it equals `c.autoescape`. -/
